@@ -53,7 +53,7 @@ pub fn configs(prop: Prop, thorough: bool) -> Vec<(E1Cfg, Vec<Bound>)> {
             }
         }
         Prop::C02 => {
-            let b_quick = vec![Bound::new(0, 0), Bound::new(1, 1), Bound::new(2, 2)];
+            let b_quick = vec![Bound::new(0, 0), Bound::new(1, 1), Bound::new(2, 1)];
             let mut c = E1Cfg::base(prop, "c02-2app-N1-faults", 1, vec![vec![r4.clone()], vec![w3.clone()]]);
             c.send_faults = true;
             c.reorder = true;
@@ -63,7 +63,7 @@ pub fn configs(prop: Prop, thorough: bool) -> Vec<(E1Cfg, Vec<Bound>)> {
             c.send_faults = true;
             c.reorder = true;
             c.duplicates = true;
-            v.push((c, b_quick.clone()));
+            v.push((c, vec![Bound::new(0, 0), Bound::new(1, 1), Bound::new(2, 0)]));
             let mut c = E1Cfg::base(prop, "c02-1app-2req-N1-faults", 1, vec![vec![w3.clone(), r4.clone()]]);
             c.send_faults = true;
             c.duplicates = true;
@@ -88,56 +88,60 @@ pub fn configs(prop: Prop, thorough: bool) -> Vec<(E1Cfg, Vec<Bound>)> {
             }
         }
         Prop::C06 => {
-            let b_quick = vec![Bound::new(0, 0), Bound::new(1, 1), Bound::new(2, 2)];
-            // (1) never answered, every retry policy: exact transmission count, timeout error
-            for (name, retry, lose) in [
-                ("c06-noanswer-none", Retry::None, 99usize),
-                ("c06-noanswer-count1", Retry::Count(1), 99),
-                ("c06-noanswer-count2", Retry::Count(2), 99),
-                ("c06-noanswer-count3", Retry::Count(3), 99),
-                ("c06-answer-after-2-forever", Retry::Forever, 2),
-                ("c06-answer-after-1-count2", Retry::Count(2), 1),
+            let b22 = vec![Bound::new(0, 0), Bound::new(1, 1), Bound::new(2, 2)];
+            let b21 = vec![Bound::new(0, 0), Bound::new(1, 1), Bound::new(2, 1)];
+            let b11 = vec![Bound::new(0, 0), Bound::new(1, 1)];
+            let t1 = vec![Bound::total(0), Bound::total(1)];
+            let t2 = vec![Bound::total(0), Bound::total(1), Bound::total(2)];
+            let t3 = vec![Bound::total(0), Bound::total(1), Bound::total(2), Bound::total(3)];
+            // (1) never answered / answered late, every retry policy: exact transmission count,
+            // timeout error, byte-identical retransmissions, response wins over deadline
+            for (name, retry, lose, bq, bt) in [
+                ("c06-noanswer-none", Retry::None, 99usize, &b22, &b22),
+                ("c06-noanswer-count1", Retry::Count(1), 99, &b22, &b22),
+                ("c06-noanswer-count2", Retry::Count(2), 99, &b21, &b22),
+                ("c06-noanswer-count3", Retry::Count(3), 99, &b11, &b22),
+                ("c06-answer-after-2-forever", Retry::Forever, 2, &b11, &b22),
+                ("c06-answer-after-1-count2", Retry::Count(2), 1, &b21, &b22),
             ] {
                 let mut c = E1Cfg::base(prop, name, 1, vec![vec![r4.clone()]]);
                 c.clock = true;
                 c.retry = retry;
                 c.lose_first = lose;
-                v.push((c, vec![Bound::new(0, 0), Bound::new(1, 0), Bound::new(2, 0)]));
+                if retry == Retry::Forever {
+                    c.clock_waits_for_tx = true;
+                }
+                v.push((c, if thorough { bt.clone() } else { bq.clone() }));
             }
             // (2) loss as a choice + competitor for the same slot + abandonment
             let mut c = E1Cfg::base(prop, "c06-2app-N1-loss-clock", 1, vec![vec![r4.clone()], vec![w3.clone()]]);
             c.clock = true;
             c.loss = true;
             c.retry = Retry::Count(1);
-            v.push((c, b_quick.clone()));
+            v.push((c, if thorough { t2.clone() } else { t1.clone() }));
             let mut c = E1Cfg::base(prop, "c06-2app-N1-abandon", 1, vec![vec![r4.clone()], vec![w3.clone()]]);
             c.abandon = true;
             c.clock = true;
             c.retry = Retry::None;
-            v.push((c, b_quick.clone()));
+            v.push((c, if thorough { t2.clone() } else { t1.clone() }));
             let mut c = E1Cfg::base(prop, "c06-2app-N2-loss-abandon", 2, vec![vec![r4.clone()], vec![w3.clone()]]);
             c.abandon = true;
             c.clock = true;
             c.loss = true;
             c.retry = Retry::Count(1);
-            v.push((c, b_quick.clone()));
+            v.push((c, if thorough { t2.clone() } else { t1.clone() }));
             if thorough {
-                let b3 = vec![Bound::new(0, 0), Bound::new(1, 1), Bound::new(2, 2), Bound::new(3, 2)];
-                let mut c = E1Cfg::base(prop, "c06-2app-N1-loss-clock-b3", 1, vec![vec![r4.clone()], vec![w3.clone()]]);
-                c.clock = true;
-                c.loss = true;
-                c.retry = Retry::Count(1);
-                v.push((c, b3.clone()));
-                let mut c = E1Cfg::base(prop, "c06-2app-N1-abandon-b3", 1, vec![vec![r4.clone()], vec![w3.clone()]]);
-                c.abandon = true;
-                c.clock = true;
-                v.push((c, b3));
                 let mut c = E1Cfg::base(prop, "c06-2app-2req-N1-loss", 1, vec![vec![r4.clone(), w3.clone()], vec![w3.clone()]]);
                 c.clock = true;
                 c.loss = true;
                 c.abandon = true;
                 c.retry = Retry::Count(2);
-                v.push((c, b_quick.clone()));
+                v.push((c, t2.clone()));
+                let mut c = E1Cfg::base(prop, "c06-multi+single-N1-abandon", 1, vec![vec![m2.clone()], vec![r4.clone()]]);
+                c.clock = true;
+                c.abandon = true;
+                c.retry = Retry::Count(1);
+                v.push((c, t2.clone()));
             }
         }
     }
@@ -156,9 +160,10 @@ fn run_prop(prop: Prop, id: &str, tier: &Tier, rule: &str) -> Result<i32, String
         let h = E1Harness { cfg: cfg.clone() };
         described.push(json!(describe(&cfg)));
         let remaining = (budget - rep.t0.elapsed().as_secs_f64()).max(2.0);
+        let left = (total_weight - described.len() as f64 + 1.0).max(1.0);
         let lim = Limits {
             max_executions: u64::MAX,
-            max_wall: Duration::from_secs_f64((budget / total_weight * 1.6).min(remaining)),
+            max_wall: Duration::from_secs_f64((remaining / left * 2.0).min(remaining)),
             workers: crate::core::workers(),
         };
         let known = crate::report::Known::load();
